@@ -26,22 +26,12 @@ impl InputBuffer {
 //@  | cat & self\.mod_cat\[end\]
 //@  > cat.intersection(self.mod_cat[end])
 //@  rw R7 1
-//@  spec
-        requires
-            old(self).mod_cat_continuity@.len() == 0,
-            old(self).mod_chars@.len() == old(self).mod_cat@.len(),
-        ensures
-            final(self).mod_cat@ == old(self).mod_cat@, final(self).mod_chars@ == old(self).mod_chars@,
-            final(self).mod_cat_continuity@.len() == final(self).mod_cat@.len(),
-            // C13: the run is determined left to right from the start of the text
-            forall|j: int| 0 <= j < final(self).mod_cat@.len() ==> #[trigger] cont_ok(final(self).mod_cat@, final(self).mod_cat_continuity@, j),
-            // and (C03) every continuity stays inside the text
-            forall|j: int| 0 <= j < final(self).mod_cat@.len() ==> 1 <= #[trigger] final(self).mod_cat_continuity@[j] <= final(self).mod_cat@.len() - j,
+//@  specfile specs/fill_cat_continuity.contract
 //@  atstart
         let ghost c = self.mod_cat@;
 //@  loop 1
             invariant
-                c == self.mod_cat@, len == c.len(), self.mod_chars@ == old(self).mod_chars@, self.mod_cat_continuity@.len() == len,
+                c == self.mod_cat@, len == c.len(), self.mod_chars@ == old(self).mod_chars@, self.mod_cat_continuity@.len() == len, other_tables_same(*old(self), *self),
                 start <= len, is_start(c, start as int),
                 forall|j: int| 0 <= j < start ==> #[trigger] cont_ok(c, self.mod_cat_continuity@, j),
                 forall|j: int| 0 <= j < start ==> 1 <= #[trigger] self.mod_cat_continuity@[j] <= len - j,
@@ -69,7 +59,7 @@ impl InputBuffer {
 //@  loop 3
                 invariant
                     c == self.mod_cat@, len == c.len(), start < end <= len, __end_i == end, start <= __it_i <= end,
-                    self.mod_cat_continuity@.len() == len, self.mod_chars@ == old(self).mod_chars@, cont0.len() == len,
+                    self.mod_cat_continuity@.len() == len, self.mod_chars@ == old(self).mod_chars@, cont0.len() == len, other_tables_same(*old(self), *self),
                     forall|j: int| 0 <= j < start ==> self.mod_cat_continuity@[j] == cont0[j],
                     forall|j: int| start <= j < __it_i ==> #[trigger] self.mod_cat_continuity@[j] == end - j,
                 decreases end - __it_i
